@@ -236,7 +236,15 @@ func (e *Engine) identical(a, b Value) bool {
 		return true
 	case MapV:
 		y, ok := b.(MapV)
-		return ok && x.obj == y.obj && x.nn == y.nn
+		if !ok || len(x.alts) != len(y.alts) {
+			return false
+		}
+		for i := range x.alts {
+			if x.alts[i] != y.alts[i] {
+				return false
+			}
+		}
+		return true
 	case ChanV:
 		y, ok := b.(ChanV)
 		return ok && x == y
@@ -389,14 +397,29 @@ func (e *Engine) mergeValue(c *Term, a, b Value) Value {
 		return Undef{"merge of different floats"}
 	case MapV:
 		y, ok := b.(MapV)
-		if ok && x.obj == 0 && y.obj != 0 {
-			return MapV{y.obj, e.And(e.Not(c), e.mapNonNil(y))}
-		}
-		if ok && y.obj == 0 && x.obj != 0 {
-			return MapV{x.obj, e.And(c, e.mapNonNil(x))}
-		}
-		if ok && x.obj == y.obj {
-			return MapV{x.obj, e.Ite(c, e.mapNonNil(x), e.mapNonNil(y))}
+		if ok {
+			var alts []MapAlt
+			add := func(al MapAlt, g *Term) {
+				g = e.And(al.g, g)
+				if g.IsFalse() {
+					return
+				}
+				for i := range alts {
+					if alts[i].obj == al.obj {
+						alts[i].g = e.Or(alts[i].g, g)
+						return
+					}
+				}
+				alts = append(alts, MapAlt{g, al.obj})
+			}
+			for _, al := range x.alts {
+				add(al, c)
+			}
+			nc := e.Not(c)
+			for _, al := range y.alts {
+				add(al, nc)
+			}
+			return MapV{alts}
 		}
 	}
 	if e.mergeStrict {
@@ -591,34 +614,9 @@ func (e *Engine) mergeStates(sts []*State) *State {
 func (e *Engine) mergeObj(c *Term, o, mo *Obj, stamp int) *Obj {
 	oc, mc := o.cells, mo.cells
 	if len(oc) != len(mc) {
-		switch o.kind {
-		case kindMap:
-			pad := func(short, long []Value) []Value {
-				r := append([]Value(nil), short...)
-				for k := len(short); k < len(long); k++ {
-					en := long[k].(StructV)
-					r = append(r, StructV{[]Value{en.f[0], en.f[1], e.False}})
-				}
-				return r
-			}
-			// entries are appended in the same order on both sides only if the shared prefix agrees; check keys
-			n := len(oc)
-			if len(mc) < n {
-				n = len(mc)
-			}
-			for k := 0; k < n; k++ {
-				if !e.identical(oc[k].(StructV).f[0], mc[k].(StructV).f[0]) {
-					unsup("merging maps with diverging key order")
-				}
-			}
-			if len(oc) < len(mc) {
-				oc = pad(oc, mc)
-			} else {
-				mc = pad(mc, oc)
-			}
-		default:
-			unsup("merging objects of different sizes (kind %d: %d vs %d)", o.kind, len(oc), len(mc))
-		}
+		// maps with different key sets (and every other object of differing size) are not merged: the paths
+		// stay apart, so that a key is present or absent, never "present under a guard" because of a join
+		unsup("merging objects of different sizes (kind %d: %d vs %d)", o.kind, len(oc), len(mc))
 	} else if o.kind == kindMap {
 		for k := range oc {
 			if !e.identical(oc[k].(StructV).f[0], mc[k].(StructV).f[0]) {
